@@ -200,7 +200,65 @@ def spdx_variant(rng, proj):
         if rng.random() < 0.35:
             e2e.add_path(tree, "LICENSES/" + rng.choice(["", "sub/"]) + "LicenseRef-nobody-uses-%d.txt" % rng.randint(0, 9),
                          ["f", dict(rng.choice(LICREF_TEXTS))])
+    if rng.random() < 0.35:
+        odd_names(rng, proj)
+    if rng.random() < 0.35:
+        twin_notices(rng, proj)
     return proj
+
+
+def odd_names(rng, proj):
+    """files (and directories) whose names are not in Unicode normal form C, NFC / NFD twins and case twins side by side, other
+    names outside ASCII (c18.UNI_GROUPS), at the top level or below a directory of the project; their bodies like any other file's"""
+    import c18
+    tree = proj["tree"]
+    dirs = [""] + [p for p, node in e2e.walk_nodes(tree) if node[0] == "d" and not p.startswith((".", "LICENSES"))
+                   and "/." not in p and "LICENSES" not in p.split("/")]
+    for grp in rng.sample(c18.UNI_GROUPS, rng.choice([1, 1, 2])):
+        members = list(grp) if rng.random() < 0.6 else rng.sample(grp, rng.randint(1, len(grp)))
+        d = rng.choice(dirs) if rng.random() < 0.4 else ""
+        shared = e2e.rand_text_body(rng, ["MIT", "0BSD"], "txt") if rng.random() < 0.3 else None
+        for m in members:
+            body = json.loads(json.dumps(shared)) if shared else e2e.rand_text_body(rng, ["MIT", "0BSD"], rc.style_for(m))
+            e2e.add_path(tree, (d + "/" if d else "") + m, ["f", body])
+
+
+def twin_notices(rng, proj):
+    """one notice reaches a file in two or three spellings (c18.spellings: another tag, no tag, the holder in another case, a comma
+    after the year): two lines of one header, or a header / .license line beside a REUSE.toml table (aggregate, sometimes another
+    precedence) or a .reuse/dep5 paragraph that names the file"""
+    import c18
+    tree = proj["tree"]
+    texts = [(p, node) for p, node in e2e.walk_nodes(tree) if node[0] == "f" and node[1]["t"] == "text" and not p.endswith(".license")
+             and not p.startswith((".", "LICENSES/")) and "/." not in p]
+    root_toml, dep5 = e2e.node_at(tree, "REUSE.toml"), e2e.node_at(tree, ".reuse/dep5")
+    any_toml = any(os.path.basename(p) == "REUSE.toml" for p, node in e2e.walk_nodes(tree))
+    for p, node in rng.sample(texts, min(len(texts), rng.choice([1, 1, 2]))):
+        b = node[1]
+        sib = e2e.node_at(tree, p + ".license")
+        own = sib[1] if sib is not None and sib[0] == "f" and sib[1]["t"] == "text" else b
+        shape = rng.choice(["own-pair", "global+own", "global+own", "global+own"])
+        if shape == "own-pair":
+            own["cop"] = list(own.get("cop", [])) + c18.spellings(rng, rng.choice([2, 3]), False)
+            continue
+        ls = c18.spellings(rng, rng.choice([2, 2, 3]), True)
+        tagged = [l for l in ls if not l[0].isdigit()]
+        glob_side = [l for l in ls if l not in tagged[:1]]
+        own["cop"] = list(own.get("cop", [])) + tagged[:1]
+        if dep5 is not None and dep5[0] == "f" and dep5[1]["t"] == "dep5":
+            if " " in p:          # (blanks separate the patterns of a Files field)
+                continue
+            dep5[1]["paras"].append({"globs": [p.replace("\\", "\\\\").replace("*", "\\*").replace("?", "\\?")],
+                                     "cop": glob_side, "lic": ["K", "MIT"]})
+        else:
+            table = {"globs": [rc.glob_escape(p)], "prec": "aggregate" if rng.random() < 0.85 else rng.choice([None, "closest", "override"]),
+                     "cop": glob_side if len(glob_side) > 1 or rng.random() < 0.5 else glob_side[0],
+                     "lic": None if rng.random() < 0.6 else [["K", "0BSD"]]}
+            if root_toml is not None and root_toml[0] == "f" and root_toml[1]["t"] == "toml" and not root_toml[1].get("broken"):
+                root_toml[1]["tables"].append(table)
+            elif root_toml is None and not any_toml:
+                e2e.add_path(tree, "REUSE.toml", ["f", {"t": "toml", "tables": [table]}])
+                root_toml, any_toml = e2e.node_at(tree, "REUSE.toml"), True
 
 
 def opt_args(case, key):
@@ -228,15 +286,17 @@ def some_dir(rng, tree):
 class SpdxE2EStream(Stream):
     name = "spdx-e2e"
     rule = ("the generated projects of C01's e2e-model stream (nested REUSE.toml / dep5 / .license siblings / binaries / windows / "
-            "excluded material / LICENSES with sub-directories and hidden names), their LicenseRef- texts replaced by texts with several "
+            "excluded material / LICENSES with sub-directories and hidden names), a third of them with 1-2 groups of names outside ASCII / outside Unicode normal form C "
+            "(c18.UNI_GROUPS: NFD names and directories, NFC / NFD twins, case twins, Hangul jamo, ANGSTROM SIGN ...) at the top level or in a directory, a third with 1-2 files that one notice "
+            "reaches in 2-3 spellings (two header lines; header or .license line beside an aggregate REUSE.toml table / a dep5 paragraph naming the file; tag variants, no tag, case, comma, year range), their LicenseRef- texts replaced by texts with several "
             "lines, CR / CRLF line ends, bytes that are not UTF-8, no text at all, plus a LicenseRef- text no file uses; real `reuse spdx` "
             "twice per project (one of plain / --creator-person / --creator-organization / both, one of --add-license-concluded with a "
             "creator, one in twelve without: usage error), run from the root or from a sub-directory with an absolute or relative --root; "
             "compared with the document of the composed Lean model (driver op spdxe2e, up to three rounds: license-expression, then "
             "boolean.py's simplify, answer as oracle tables; sha1 / md5 from hashlib): every line, LicenseConcluded up to truth-table "
             "equivalence; where the model's docOk holds the real document must be read by the tag-value reader; oracle = generator ground "
-            "truth: File sections <-> readable covered files, checksum and SPDXID recomputed, licence identifiers and copyright lines = "
-            "what the sources-and-precedence rules attribute, one DESCRIBES relationship per file, LicenseRef sections <-> LicenseRef- "
+            "truth: File sections <-> readable covered files (FileName = ./ + the path as stored, code point for code point), checksum and SPDXID recomputed, licence identifiers and copyright lines = "
+            "what the sources-and-precedence rules attribute AND what `reuse lint --json` (run on the same tree) attributes to the file, one DESCRIBES relationship per file, LicenseRef sections <-> LicenseRef- "
             "files below LICENSES/ with their decoded text, LicenseConcluded equivalent to the AND of the attributed expressions; "
             "non-trivial = distinct documents")
 
@@ -246,7 +306,7 @@ class SpdxE2EStream(Stream):
 
     def cases(self, tier, rng):
         import c18
-        n = {"quick": 170, "thorough": 1700}[tier]
+        n = {"quick": 150, "thorough": 1700}[tier]
         out = []
         for k in range(n):
             proj = json.loads(json.dumps(FIXED_SPDX[k])) if k < len(FIXED_SPDX) else spdx_variant(rng, e2e.gen_case(rng))
@@ -269,6 +329,15 @@ class SpdxE2EStream(Stream):
             root = os.path.join(top, case["name"])
             os.makedirs(root)
             e2e.materialise(root, proj["tree"])
+            # what `reuse lint --json` attributes to every file (the property's wording for the copyright lines and identifiers)
+            code, out, err, exc = run_cli(["--no-multiprocessing"] + flag_opts(proj["flags"]) + ["lint", "--json"], root)
+            if status_of(code, err, exc) == "ok" and "{" in out:
+                try:
+                    rep = json.loads(out[out.index("{"):])
+                    res["lint"] = {f["path"]: {"c": sorted(c["value"] for c in f["copyrights"]),
+                                               "e": sorted(c["value"] for c in f["spdx_expressions"])} for f in rep["files"]}
+                except (ValueError, KeyError, TypeError) as e:
+                    res["lint"] = "unreadable: %s" % type(e).__name__
             for key, cwd, rootform in case["runs"]:
                 wd = os.path.join(root, cwd) if cwd else root
                 pre = ["--no-multiprocessing"] + flag_opts(proj["flags"])
@@ -382,13 +451,15 @@ class SpdxE2EStream(Stream):
         res = json.loads(impl_out)
         proj = case["proj"]
         exp = e2e.truth(proj)
+        if exp["status"] == "ok" and not isinstance(res.get("lint"), dict):
+            return "lint-json: no report for a project that loads (%r)" % (res.get("lint"),)
         for (key, cwd, rootform), run in zip(case["runs"], res["runs"]):
-            why = self.check_run(c18, case, proj, exp, key, run)
+            why = self.check_run(c18, case, proj, exp, key, run, res.get("lint"))
             if why:
                 return "%s [options %s, run in %r, --root %s]" % (why, key, cwd or ".", rootform if cwd else "none")
         return None
 
-    def check_run(self, c18, case, proj, exp, key, run):
+    def check_run(self, c18, case, proj, exp, key, run, lint=None):
         st = run["status"]
         if st.startswith("EXC"):
             return "crash: " + st
@@ -460,6 +531,15 @@ class SpdxE2EStream(Stream):
                     return "copyright: %r: lines not sorted: %r" % (path, got_c)
             elif cop != "NONE":
                 return "copyright: %r has %r but no notice is attributed to it" % (path, cop)
+            if lint is not None and path in lint:
+                # the property's own wording: the copyright lines and identifiers `reuse lint --json` attributes to the file
+                # (a blank REUSE.toml string is listed by lint with an empty value; it is no notice -- as in the ground truth above)
+                lint_c = {l for v in lint[path]["c"] if v.strip() for l in v.split("\n")}
+                if ({l for l in cop.split("\n")} if cop != "NONE" else set()) != lint_c:
+                    return "copyright-vs-lint: %r has %r, `reuse lint --json` attributes %r" % (path, cop, lint[path]["c"])
+                lint_k = {k for e in lint[path]["e"] for k in c18.expr_keys(e)}
+                if set(got_keys) != lint_k:
+                    return "licence-ids-vs-lint: %r lists %r, `reuse lint --json` attributes %r" % (path, got_keys, lint[path]["e"])
             conc = d["LicenseConcluded"][0]
             exprs = exp["exprs"][path]
             if not add:
